@@ -159,6 +159,10 @@ func Items(quick bool) []Item {
 			out = append(out, Item{ID: fmt.Sprintf("oq%05d", i), Family: "operator-elided", Def: m.Def{"Root": rules2}, Alphabet: []string{"a", "b", "é", "\n", "\xc3"}, MaxLen: 5, Pattern: p})
 		}
 	}
+	// patterns written with RAW control characters (a Go interpreted string "[\r\n]+"), not regexp escapes
+	out = append(out, Item{ID: "raw00000", Family: "raw-control-characters", Def: m.Def{"Root": {
+		{Name: "NL", Pattern: "[\r\n]+x?"}, {Name: "Comment", Pattern: "#[^\n]*"}, {Name: "Tab", Pattern: "\ta*"}, {Name: "A", Pattern: `a`}, {Name: "B", Pattern: `b`}}},
+		Alphabet: []string{"a", "b", "\n", "\r", "#", "\t", "x"}, MaxLen: 4})
 	every := 1
 	if quick {
 		every = 12
